@@ -387,18 +387,18 @@ theorem href_agrees (idna : Idna) (L : Nat) (u : Url) (v : Bytes) (hid : ∀ d, 
       · cases hr
 
 open AdaVerif.Model.ParseSpecial AdaVerif.Model.ParseAgg AdaVerif.Lemmas.PA AdaVerif.Lemmas.PAB in
-/-- **… and with a base** (`partial`: neither the base nor the input is a `file` URL - those routes of `machineBA` are run
-    against the implementation only): `copy_scheme`, `update_base_authority` (whose result is *not* the layout of any
+/-- **… and with a base**, every route: `copy_scheme`, `update_base_authority` (whose result is *not* the layout of any
     content - credentials without their '@' - until `update_host_to_base_host` has run; the proof computes on the raw
     buffer there), `update_base_port(retrieve_base_port())`, the path and search copies, `clear_search`, `shorten_path` on
-    the view with its conditional write-back, `consume_prepared_path` continuing on an inherited path, and the opaque
-    base with a lone fragment.  The base object is the layout of a record with the invariants of C19 whose user name has
-    no ':' and whose host does not start with '@' (`BaseRec`; true of every parsed record: `parsed_base_ok`). -/
-theorem parse_agrees_with_base_partial (idna : Idna) (r : AdaVerif.Model.UrlRec.Rec) (hb : BaseRec r) (input : Bytes)
-    (hnf : AdaVerif.Model.getSchemeType r.scheme ≠ 6)
-    (hin : ∀ name rest, schemeScan (prep input).1 = some (name, rest) → (parseSchemeNoOverride name).1 ≠ 6) :
+    the view with its conditional write-back, `consume_prepared_path` continuing on an inherited path, the opaque base
+    with a lone fragment, and the FILE / FILE_SLASH states with a file base (`get_host()`, `clear_pathname`,
+    `append_base_pathname` of the base's drive letter).  The base object is the layout of a record with the invariants of
+    C19 whose user name has no ':' and whose host does not start with '@' (`BaseRec`; true of every parsed record:
+    `parsed_base_ok`).  The IDNA parameter must return ASCII lower case (used in FILE_HOST only). -/
+theorem parse_agrees_with_base (idna : Idna) (r : AdaVerif.Model.UrlRec.Rec) (hb : BaseRec r) (input : Bytes)
+    (hid : ∀ d, AdaVerif.Lemmas.HP.IdnaAt idna d) :
     machineBA idna (layout (toL r)) input = some (aggOf (machineB idna r input)) :=
-  machineBA_eq idna r hb input hnf hin
+  machineBA_eq_full idna r hb input hid
 
 open AdaVerif.Lemmas.PAB in
 /-- every record the Standard's parser hands out (no base) makes a good base object -/
